@@ -2,7 +2,8 @@
 (* (V) for C18: one scenario = one Parse() call of the real pkg/chunkparser on a scripted reader.
    Events:
      hdr  {len, boxes:[{t,s}], wf, errAt, cbErrAt}  wf: the stream walk found only possible sizes
-     read {pos, req, n, eof, err}    one Read call: pos = bytes handed out before, req = len(p)
+     read {pos, req, n, eof, err}    one Read call: pos = bytes handed out before, req = len(p); err: a non-EOF error was returned
+                                     (an injected one or io.ErrUnexpectedEOF, alone or with n > 0 bytes, once or on every later call)
      cb   {start, len, init, eq}     one callback; eq: the data equal input[start:start+len]
      ret  {err}                      Parse returned: "" | "reader" | "callback" | "other"
      hang {why}                      Parse did not return (time or read-count bound)          *)
@@ -30,7 +31,8 @@ Read == /\ e.ev = "read"
 
 Cb == /\ e.ev = "cb"
       /\ Clause("C18.concat", e.start = delivered /\ e.eq, <<"start", e.start, "delivered", delivered, "eq", e.eq>>)
-      /\ Clause("C18.errors.no_callback_after_error", ~readerFailed /\ ~cbFailed, "callback after an error")
+      \* (a reader error that arrived together with data: delivering what had arrived before returning the error is a fair reading)
+      /\ Clause("C18.errors.no_callback_after_error", ~cbFailed /\ (readerFailed => Get(H, "errWithData", FALSE)), "callback after an error")
       /\ IF H.wf /\ ~readerFailed
          THEN /\ Clause("C18.cuts", ncb + 1 <= NCuts(H.boxes, H.len)
                                      /\ e.start + e.len = NthMin(CutSet(H.boxes, H.len), ncb + 1),
